@@ -29,7 +29,7 @@ func TestMain(m *testing.M) { pt.Main(m, false) }
 // response can be attributed to exactly one write - or to none.
 const nWrites = 4 // scheduled mode draws from w1..w4; stress mode uses as many as it issues
 
-var sizes = []int{0, 1500, 70001, 300, 9000}
+var sizes = []int{0, 1500, 70001, 300, 0} // w4 is the empty object
 
 type write struct {
 	id     int
@@ -65,6 +65,11 @@ func metaOf(i int) []s3c.KV {
 	return []s3c.KV{{K: "x-amz-meta-w", V: fmt.Sprint(i)}, {K: "Content-Type", V: fmt.Sprintf("text/w%d", i)}}
 }
 
+// putHdrs: a plain upload also declares the CRC32 of its body, which the gateway stores and returns on request
+func putHdrs(i int) []s3c.KV {
+	return append(metaOf(i), s3c.KV{K: "x-amz-checksum-crc32", V: s3c.Checksum("crc32", writes[i].body)})
+}
+
 // ---- case ---------------------------------------------------------------------------
 
 type op struct {
@@ -79,6 +84,10 @@ type caseA struct {
 	Initial  int   `json:"initial"` // 0: key absent, else the write present before the race
 	Ops      []op  `json:"ops"`
 	Schedule []int `json:"schedule"`
+	// Stall[i] = n > 0: operation i, once it has been released StallAt[i] times, stays parked while any other move is
+	// possible and fewer than n moves were made (a request that pauses at one point while others run to completion)
+	Stall   []int `json:"stall,omitempty"`
+	StallAt []int `json:"stall_at,omitempty"`
 }
 
 // ---- observation ---------------------------------------------------------------------
@@ -147,6 +156,11 @@ func attribute(r *s3c.Resp, head bool) outcome {
 	}
 	if ct := r.Header.Get("Content-Type"); ct != fmt.Sprintf("text/w%d", byBody) {
 		o.Torn = fmt.Sprintf("body/ETag of w%d with Content-Type %q", byBody, ct)
+		return o
+	}
+	// a checksum, when the answer carries one (x-amz-checksum-mode: ENABLED), is the one of the same write
+	if cs := r.Header.Get("x-amz-checksum-crc32"); cs != "" && cs != s3c.Checksum("crc32", writes[byBody].body) {
+		o.Torn = fmt.Sprintf("body/ETag of w%d with x-amz-checksum-crc32 %q (w%d has %s)", byBody, cs, byBody, s3c.Checksum("crc32", writes[byBody].body))
 		return o
 	}
 	o.Val = byBody
@@ -236,7 +250,7 @@ func doWrite(cl *s3c.Client, bkt string, kind string, w int) (*s3c.Resp, error) 
 	path := "/" + bkt + "/" + key
 	switch kind {
 	case "put":
-		return cl.Call("PUT", path, nil, metaOf(w), writes[w].body)
+		return cl.Call("PUT", path, nil, putHdrs(w), writes[w].body)
 	case "copy":
 		return cl.Call("PUT", path, nil, []s3c.KV{{K: "x-amz-copy-source", V: fmt.Sprintf("%s/src-%d", bkt, w)}}, nil)
 	}
@@ -305,7 +319,7 @@ func execA(c caseA) (hist []histOp, overlap bool, err error) {
 	// copy sources and the initial object
 	for _, o := range c.Ops {
 		if o.Kind == "copy" {
-			if r, err := cls[0].Call("PUT", fmt.Sprintf("/%s/src-%d", bkt, o.W), nil, metaOf(o.W), writes[o.W].body); err != nil || !r.OK() {
+			if r, err := cls[0].Call("PUT", fmt.Sprintf("/%s/src-%d", bkt, o.W), nil, putHdrs(o.W), writes[o.W].body); err != nil || !r.OK() {
 				return nil, false, fmt.Errorf("SETUP: copy source: %v %v", r, err)
 			}
 		}
@@ -330,6 +344,17 @@ func execA(c caseA) (hist []histOp, overlap bool, err error) {
 	s.Filter = func(_ int, point string, args []string) bool {
 		return len(args) >= 2 && args[0] == bkt && args[1] == key
 	}
+	if len(c.Stall) > 0 {
+		s.Starve, s.StarveFrom = map[int]int{}, map[int]int{}
+		for i, n := range c.Stall {
+			if n > 0 && i < len(c.Ops) {
+				s.Starve[i] = n
+				if i < len(c.StallAt) {
+					s.StarveFrom[i] = c.StallAt[i]
+				}
+			}
+		}
+	}
 	verifhook.SetHandler(s.Hook)
 	defer verifhook.SetHandler(nil)
 	type ret struct {
@@ -353,6 +378,8 @@ func execA(c caseA) (hist []histOp, overlap bool, err error) {
 			r, err = cl.Call("DELETE", path, nil, nil, nil)
 		case "get":
 			r, err = cl.Call("GET", path, nil, nil, nil)
+		case "getsum":
+			r, err = cl.Call("GET", path, nil, []s3c.KV{{K: "x-amz-checksum-mode", V: "ENABLED"}}, nil)
 		case "head":
 			r, err = cl.Call("HEAD", path, nil, nil, nil)
 		}
@@ -360,7 +387,7 @@ func execA(c caseA) (hist []histOp, overlap bool, err error) {
 			return ret{err: err}
 		}
 		switch o.Kind {
-		case "get":
+		case "get", "getsum":
 			return ret{out: attribute(r, false)}
 		case "head":
 			return ret{out: attribute(r, true)}
@@ -412,32 +439,47 @@ func caseGen() *rapid.Generator[caseA] {
 		var c caseA
 		c.NoOTmp = rapid.Bool().Draw(t, "no_otmpfile")
 		c.Procs = rapid.IntRange(1, 2).Draw(t, "procs")
-		c.Initial = rapid.SampledFrom([]int{0, 1, 1, 1}).Draw(t, "initial")
+		c.Initial = rapid.SampledFrom([]int{0, 1, 1, 1, 4}).Draw(t, "initial")
 		n := rapid.IntRange(2, 4).Draw(t, "nops")
-		next := 2
+		avail := []int{2, 3, 4}
+		if c.Initial == 4 {
+			avail = []int{1, 2, 3} // the empty object is there first
+		}
 		readers := 0
 		for i := 0; i < n; i++ {
 			var o op
-			o.Kind = rapid.SampledFrom([]string{"put", "put", "mpu", "copy", "delete", "get", "get", "get", "head"}).Draw(t, "kind")
+			o.Kind = rapid.SampledFrom([]string{"put", "put", "mpu", "copy", "delete", "get", "getsum", "getsum", "head"}).Draw(t, "kind")
 			if i == n-1 && readers == 0 {
-				o.Kind = rapid.SampledFrom([]string{"get", "get", "head"}).Draw(t, "reader")
+				o.Kind = rapid.SampledFrom([]string{"getsum", "getsum", "get", "head"}).Draw(t, "reader")
 			}
 			switch o.Kind {
 			case "put", "mpu", "copy":
-				if next > nWrites {
+				if len(avail) == 0 {
 					o.Kind = "get"
 				} else {
-					o.W = next
-					next++
+					o.W, avail = avail[0], avail[1:]
 				}
 			}
-			if o.Kind == "get" || o.Kind == "head" {
+			if o.Kind == "get" || o.Kind == "getsum" || o.Kind == "head" {
 				readers++
 			}
 			o.Proc = rapid.IntRange(0, c.Procs-1).Draw(t, "proc")
 			c.Ops = append(c.Ops, o)
 		}
 		c.Schedule = rapid.SliceOfN(rapid.IntRange(0, 5), 0, 120).Draw(t, "schedule")
+		if rapid.IntRange(0, 2).Draw(t, "stalling") == 0 {
+			// one operation (mostly a reader) pauses after some of its steps until the others are through
+			i := rapid.IntRange(0, n-1).Draw(t, "stall_op")
+			for j, o := range c.Ops {
+				if (o.Kind == "get" || o.Kind == "getsum" || o.Kind == "head") && rapid.Bool().Draw(t, "stall_reader") {
+					i = j
+					break
+				}
+			}
+			c.Stall, c.StallAt = make([]int, n), make([]int, n)
+			c.Stall[i] = 200
+			c.StallAt[i] = rapid.IntRange(0, 18).Draw(t, "stall_at")
+		}
 		return c
 	})
 }
